@@ -107,11 +107,15 @@ def loc_canon_spec(e):
     return (tuple(e["kw"]), errrec._p(e["ip"]), tuple(sorted(loc_canon_spec(c) for c in e["ctx"])))
 
 
-def run_real(d, S, store, instances):
-    """errors of each instance on ONE validator with a tracing resolver; (list of (obs list | exception name), events)"""
+def run_real(d, S, store, instances, via_handler=False):
+    """errors of each instance on ONE validator with a tracing resolver; (list of (obs list | exception name), events).
+    via_handler: the other documents are not supplied in the store but obtained through a retrieval handler"""
     cls = _setup()[d]
     js = import_lib()
-    res = _TR.from_schema(S, id_of=cls.ID_OF, store=copy.deepcopy(store))
+    if via_handler and store:
+        res = _TR.from_schema(S, id_of=cls.ID_OF, handlers={"http": tracing.CountingHandler(store)})
+    else:
+        res = _TR.from_schema(S, id_of=cls.ID_OF, store=copy.deepcopy(store))
     v = cls(S, resolver=res)
     out = []
     for I in instances:
@@ -131,7 +135,7 @@ def replay_one(task):
     d, ex = task
     S, inl = dec(ex["S"]), dec(ex["inl"])
     store = {dec_str(m["u"]): dec(m["doc"]) for m in ex["more"]}
-    got, events = run_real(d, S, store, _INST)
+    got, events = run_real(d, S, store, _INST, via_handler=(len(repr(S)) % 2 == 0))
     got_inl, _ = run_real(d, inl, {}, _INST)
     probs = []
     for i, (g, gi, want) in enumerate(zip(got, got_inl, ex["e"])):
@@ -214,7 +218,7 @@ def main(args):
                "reference string; relative root id; store document reached by absolute / relative reference, with own id; "
                "two-reference chain; array element; nested id with absolute / relative reference; a cross-document reference under not/disallow before a local one; the other drafts' id keyword on the way (must be inert); recursion through '#' compared with a 4-fold unfolding; urn base) x 13 "
                "instances; TLC checks Transparent and SameAsOriginal on each and exports the expected located errors, "
-               "replayed on real validators (store, tracing resolver) and compared with the real errors of the inlined "
+               "replayed on real validators (other documents in the store or, alternately, behind a retrieval handler; tracing resolver) and compared with the real errors of the inlined "
                "schema. Random: extraction at random positions of random deep schemas, judged by TLC (Trace_Errors C02 "
                "clauses); every recorded resolve(scope, ref) -> url event is checked against RFC 3986 (Trace_Uri). "
                "Non-trivial: the instance has >= 1 error; distinct by (draft, scenario, instance)." % (8 if quick else 19))
